@@ -44,7 +44,15 @@ CFG = {
             "random values (depth <= 4; boundary integers, reals, names/strings over delimiters, escapes and high bytes, references, arrays, "
             "dictionaries) x random encoder choices (whitespace/comment runs, #hh vs raw and hex case, literal vs hex strings, hex whitespace, "
             "odd-digit shorthand, signs, leading zeros, entry order, null-valued entries) x 15 following contexts x depth slack 0..2; one "
-            "single-byte mutation/truncation and one duplicate-key spelling per value. non-trivial = spelling of >= 4 bytes (distinct by case hash)",
+            "single-byte mutation/truncation and one duplicate-key spelling per value. "
+            "VIEW TWINS (Driver/Views.lean, corpus views.case): EVERY case above runs a second time as `vw <steps> <pre> <suf> <case>` - the case's bytes are a window strictly inside ONE larger allocation pre ++ window ++ suf, "
+            "selected by a chain of RestrictView / RestrictViewFrom steps (the harness checks that the view shows exactly the window), and parse_pdf_obj runs on that view; bytes in front of the window cycled over 1, 7, 11, 2, 0, 13, 1000, 64, 5, 3 of them (header-like text with complete objects, or random bytes; period 16) x chain of restrictions (RestrictView; RestrictViewFrom; From then View; View then View with junk on both sides of the inner window; View then From; a View from 0 then From; three deep; period 7) x what lies behind the window (period 5). "
+            "The unchanged code reports start, end and cursor as cursors of the view it was given, so the expected output is literally that of the plain case; model and oracle are computed from the window's bytes alone "
+            "(model of a view = model of its window: Parsley.C17.view_refines_copy); classes of rejected view cases carry the prefix `view-`. What lies behind the window continues the text: behind a truncated spelling the rest of it, "
+            "otherwise more digits, ` 0 R` / ` 2 R`, `.5`, regular characters, `#41`, closing delimiters; one `sp`/`lit` twin in three has its window END WITH THE SPELLING (the case's following context, then the continuation, lie behind it: "
+            "the end of the view is the delimiter, e.g. `12` | ` 0 R`). CUT family (view only): 10 fixed + 40 (thorough 400) random legal spellings cut at EVERY byte, the rest and a following context behind the window: whatever is accepted must lie "
+            "inside the window, and a string / array / dictionary without its closing delimiter must be rejected (`cut-accepted`). Per tier: quick 12262 ordinary + 12262 view twins + 1210 cuts, thorough 339112 + 339112 + 9034. "
+            "non-trivial = spelling of >= 4 bytes (distinct by case hash; a view case counts when there are bytes in front of or behind the window)",
     "trusted_base": COMMON_TB + ["modelled, not verified: ParseBuffer primitives as list functions; the relational spec `Spells` defines what a legal spelling is (the encoder `spell` used as generator is proved to produce legal spellings on its whole domain `wfDeep`; every generated value is checked to lie in `wfDeep` at generation time and at build time)"],
     "assumptions": ["integers of the value type handed to the encoder range over -(2^63-1)..2^63-1 (IntegerP has no spelling for i64::MIN; through parse_pdf_obj `-9223372036854775808` does parse, as the Integer i64::MIN, "
                     "by the real-number path: parseInternal_int_range / number_token_denotes and the `lit` cases); a point-free token outside the i64 range is the real value/1 (spell_parse_wide), beyond i128 not an object; a token with a point whose digits (point removed) exceed 2^127-1 or with 39+ fraction digits is not an object, `12.` is the Integer 12 and a lone `.` is read as 0 (decimal_token_denotes; the generator writes at least one digit); reals are (numerator, 10^k) with k >= 1, unnormalised, as the parser represents them",
